@@ -102,6 +102,11 @@ def pinned_cases(ctx):
             rank = (h >> 16) % 4
             case["shape"] = [sizes[(h >> (20 + 4 * k)) % len(sizes)] for k in range(rank)]
         out.append(("sweep", case))
+        if ctx.tier == "quick" and e == "error_shape":
+            # few triples, cheap: every sub-variant (incl. the scalar-state one) on every run
+            for v2 in range(3):
+                if v2 != case["variant"]:
+                    out.append(("sweep", {**case, "variant": v2, "n": 3}))
     # generic shapes: for every array-valued field x factorisation, every shape that silent broadcasting, raveling or reshaping could
     # swallow (size one; the valid shape with unit axes inserted / an axis replaced by one / transposed / flattened / one axis off by one)
     fields = {"output_scale": ("output_scale", "generic_shape"), "transition_scale": ("transition_scale", "generic_shape"),
@@ -479,6 +484,11 @@ def check_case(case):
     elif entry == "error_shape":
         # residual-based error estimate on a jet-lifted constraint (more outputs than state entries)
         skip = "needs at least one spare coefficient" if n < 3 else None
+        if case["variant"] == 2:
+            # scalar problem (state of shape (1,)): a one-entry *reference* must not excuse a two-entry error estimate
+            d = 1
+            vf, tcoeffs = _problem(n, d)
+            res.label("error_shape:scalar_state")
 
         def run(lifted):
             prior = ssm.prior_wiener_integrated(tcoeffs)
